@@ -58,6 +58,11 @@ Handles(f) == \E g \in Rng(Prec(f)), d \in Daemons : Has(g, d)
 HasPrimary(f) == Sel(Prec(f), "primary") # <<>>
 \* the default of v comes from the first flavor in precedence order that declares it
 VarFrom(f) == LET vs == SelectSeq(Prec(f), LAMBDA g : hasvar[g]) IN IF vs = <<>> THEN "" ELSE vs[1]
+\* The message :v is answered by the first flavor in precedence order that has a method for it: the accessor a flavor gets by
+\* declaring v gettable, or a primary method (defmethod (g :v) ...) written by the user ("getv"; on the same flavor it replaces
+\* the accessor, it is defined after the flavor).  "" nobody answers, "val" an accessor (the value of v), "user:g" the method of g.
+GetV(f) == LET ps == SelectSeq(Prec(f), LAMBDA g : hasvar[g] \/ Has(g, "getv")) IN
+           IF ps = <<>> THEN "" ELSE IF Has(ps[1], "getv") THEN "user:" \o ps[1] ELSE "val"
 
 \* ---- feature tags (constructs with a known defect of the implementation) ------------------
 Inheritors(g) == {f \in F : Defined(f) /\ f # g /\ g \in Rng(Prec(f))}
@@ -83,7 +88,7 @@ DefMethod(f, d) == /\ Defined(f) /\ ~Has(f, d)
                    /\ feat' = feat \cup Features("defmethod", f, d)
 Next == /\ Len(hist) < MaxOps
         /\ \/ \E f \in F, cs \in SeqsUpTo(F, MaxComps), hv \in BOOLEAN : DefFlavor(f, cs, hv)
-           \/ \E f \in F, d \in Daemons : DefMethod(f, d)
+           \/ \E f \in F, d \in Daemons \cup {"getv"} : DefMethod(f, d)
 \* ---- directed histories: a wide component shared by two sibling flavors ---------------------------------------------
 \* w leaves with a daemon each, P made of them (with or without a method of its own), Q and R with a daemon each, and
 \* the siblings (P Q) and (P R) in both orders: the method tables of the siblings are built from the same inherited
@@ -106,7 +111,7 @@ NextWide == \E sc \in Scripts :
 \* what must be observed after the history, for every defined flavor
 Expect == [f \in {g \in F : Defined(g)} |->
              [prec |-> Prec(f), handles |-> Handles(f), primary |-> HasPrimary(f), trace |-> SendTrace(f),
-              vfrom |-> VarFrom(f)]]
+              vfrom |-> VarFrom(f), getv |-> GetV(f)]]
 Emit == Len(hist') < EmitFrom \/ PrintT(ToJson([hist |-> hist', expect |-> Expect', feat |-> feat']))
 \* random walks (tlc -simulate) evaluate an invariant on the states of the walk only; printing from there gives
 \* one line per walk step instead of one per enabled successor
